@@ -195,15 +195,15 @@ Proof.
 Qed.
 
 (** * the descriptor walker *)
-Theorem ydec_np env hk : forall fuel t s st, ynp (ydec env hk fuel t s st).
+Lemma ybody_np env hk (D : yty -> ys -> ct -> yres ys) :
+  (forall t s st, ynp (D t s st)) -> forall t s st, ynp (ybody env hk D t s st).
 Proof.
-  induction fuel as [ | f IH]; intros t s st; cbn [ydec]; [exact I|]. lazy zeta.
-  apply ynp_if; [exact I|].
+  intros IH t s st. unfold ybody. lazy zeta.
   assert (Hbits : forall w stx, ynp (doy (x, st) <- ylift (ytake_bits w s) stx; yret (snd x) st)).
   { intros. apply ynp_bind; [apply ynp_lift; apply np_ytake_bits | intros; exact I]. }
   assert (Hinto : forall (cr : xtree * ys) chk t' stx,
             ynp (match sub_slice (fst cr) chk with
-                 | Some s2 => doy (_, st) <- ydec env hk f t' s2 stx; yret (snd cr) st
+                 | Some s2 => doy (_, st) <- D t' s2 stx; yret (snd cr) st
                  | None => yret (snd cr) stx
                  end)).
   { intros. destruct (sub_slice (fst cr) chk); [|exact I].
@@ -222,7 +222,7 @@ Proof.
   - apply ynp_bind; [apply ynp_lift; apply np_ytake_ref|]. intros cr st3. apply Hinto.
   - apply ynp_bind; [apply ynp_lift; apply np_ytake_bits|]. intros x st2. apply ynp_if; [|exact I].
     apply ynp_bind; [apply ynp_lift; apply np_ytake_ref|]. intros cr st3. apply Hinto.
-  - clear Hbits. generalize (tickc st). revert s. induction fs as [ | t1 ft IHf]; intros s0 stx; [exact I|].
+  - clear Hbits. generalize st. revert s. induction fs as [ | t1 ft IHf]; intros s0 stx; [exact I|].
     apply ynp_bind; [apply IH|]. intros s1 st2. apply IHf.
   - induction alts as [ | [[len val] t'] rest IHa]; [exact I|].
     apply ynp_if; [exact IHa|]. apply ynp_if; [apply IH | exact IHa].
@@ -250,7 +250,18 @@ Proof.
     destruct (yb s) as [ | [ | ] b']; exact I.
   - apply ynp_if; [apply IH | exact I].
   - apply ynp_bind; [apply ynp_lift; apply np_ytake_ref|]. intros cr st3. apply Hinto.
+  - apply IH.
 Qed.
 
-Theorem yunmarshal_np env hk fuel t c : ynp (yunmarshal env hk fuel t c).
+Theorem ydec_np env hk rs : forall fuel t s st, ynp (ydec env hk rs fuel t s st).
+Proof.
+  induction fuel as [ | f IH]; intros t s st; cbn [ydec]; [exact I|]. lazy zeta.
+  apply ynp_if; [|apply ybody_np; exact IH].
+  apply ynp_if; [exact I|].
+  apply ynp_if; [exact I|].
+  destruct (rs (cell_of s)) as [c' | ]; [|exact I].
+  apply ynp_bind; [apply ybody_np; exact IH | intros; exact I].
+Qed.
+
+Theorem yunmarshal_np env hk rs fuel t c : ynp (yunmarshal env hk rs fuel t c).
 Proof. apply ydec_np. Qed.
